@@ -152,8 +152,43 @@ pub fn c05_eval_word(run: &mut Run, w: u16, pending: usize) {
     }
 }
 
+/// The acceptance rule through the bit-serial entry point with a *preceding frame* `prev`
+/// (accepted or rejected) on the same decoder: the verdict on `w` must still be the rule's.
+pub fn c05_eval_after(run: &mut Run, prev: u16, w: u16) {
+    run.eval(1);
+    let want: Result<Option<u8>, Error> = frame::check_word(w).map(Some);
+    let case = json!({"kind":"word_after","prev":prev,"word":w});
+    let got = guard(|| {
+        let mut d = Ps2Decoder::new();
+        for b in frame::word_bits(prev) {
+            let _ = d.add_bit(b);
+        }
+        let mut last = Ok(None);
+        let mut early_ok = true;
+        for (i, b) in frame::word_bits(w).iter().enumerate() {
+            last = d.add_bit(*b);
+            if i < 10 && !matches!(last, Ok(None)) {
+                early_ok = false;
+            }
+        }
+        (early_ok, last)
+    });
+    match got {
+        Err(p) => run.violation(Violation { sig: format!("ps2:add_bit:after={:03X}:word={:03X}:{}", prev, w, panic_sig(&p)), what: format!("Ps2Decoder::add_bit panics shifting in {:#05X} after the frame {:#05X}: {}", w, prev, p), case }),
+        Ok((early_ok, last)) => {
+            if !early_ok || last != want {
+                run.violation(Violation {
+                    sig: format!("ps2:add_bit:after={:03X}({}):word={:03X}:want={}:got={}", prev, frame::err_class(prev), w, res_opt_str(&want), if early_ok { res_opt_str(&last) } else { "early-result".into() }),
+                    what: format!("after the {} frame {:#05X}, shifting in the frame {:#05X} [start={} data={:02X} parity={} stop={}] gives {}; the acceptance rule requires {}", frame::err_class(prev), prev, w, w & 1, (w >> 1) & 0xFF, (w >> 9) & 1, (w >> 10) & 1, res_opt_str(&last), res_opt_str(&want)),
+                    case,
+                });
+            }
+        }
+    }
+}
+
 pub fn c05(run: &mut Run) {
-    run.rule = "Exhaustive: all 2048 11-bit words through Ps2Decoder::add_word (also with 1, 5 and 10 bits pending in the shift register), Keyboard::add_word (both scancode sets; framing verdict) and bit by bit through add_bit, compared with an independent frame model (start=0, stop=1, odd parity over data+parity, error priority start > stop > parity, data = bits 1..8). All 256 bytes are encoded by the model's encoder and must round-trip; all 11 single-bit and 55 double-bit corruptions of each of the 256 valid frames are compared with the model (every single-bit corruption must be rejected). Non-trivial = every word is (each is valid or has at least one defect); distinct = distinct (word, pending) and distinct (byte, flipped bit set).".into();
+    run.rule = "Exhaustive: all 2048 11-bit words through Ps2Decoder::add_word (also with 1, 5 and 10 bits pending in the shift register), Keyboard::add_word (both scancode sets; framing verdict) and bit by bit through add_bit, compared with an independent frame model, and again through add_bit right after each of 8 representative preceding frames (valid, bad start, bad stop, parity error, all-ones, all-zeros) (start=0, stop=1, odd parity over data+parity, error priority start > stop > parity, data = bits 1..8). All 256 bytes are encoded by the model's encoder and must round-trip; all 11 single-bit and 55 double-bit corruptions of each of the 256 valid frames are compared with the model (every single-bit corruption must be rejected). Non-trivial = every word is (each is valid or has at least one defect); distinct = distinct (word, pending) and distinct (byte, flipped bit set).".into();
     run.assumptions = vec!["words with bits above bit 10 are outside the documented precondition and only exercised for C08".into()];
     let mut class = std::collections::BTreeMap::<&str, u64>::new();
     for w in 0..0x800u16 {
@@ -169,6 +204,16 @@ pub fn c05(run: &mut Run) {
         }
     }
     run.part("all_words", json!({"words": 2048, "classes_by_model": class}));
+    // the same rule through add_bit when another frame (valid, bad start, bad stop, parity
+    // error, all-ones, all-zeros) went through the decoder just before
+    let prevs: [u16; 8] = [frame::encode(0x00), frame::encode(0xFF), 0x7FF, 0x000, frame::encode(0x01) ^ 0x200, frame::encode(0xA5) ^ 0x004, 0x3FE, frame::encode(0x5A) ^ 0x400];
+    for prev in prevs {
+        for w in 0..0x800u16 {
+            c05_eval_after(run, prev, w);
+            run.nontrivial_fp(fp(&("after", prev, w)));
+        }
+    }
+    run.part("after_preceding_frame", json!({"preceding_frames": prevs.iter().map(|p| format!("{:#05X} ({})", p, frame::err_class(*p))).collect::<Vec<_>>(), "cases": 8 * 2048}));
     // round trip + corruptions
     let (mut single, mut double, mut double_accepted) = (0u64, 0u64, 0u64);
     for b in 0..=255u8 {
@@ -523,6 +568,10 @@ pub fn replay(run: &mut Run, case: &Value) -> bool {
             let w = case["word"].as_u64().unwrap_or(0) as u16;
             let p = case["pending"].as_u64().unwrap_or(0) as usize;
             c05_eval_word(run, w, p);
+            true
+        }
+        "word_after" => {
+            c05_eval_after(run, case["prev"].as_u64().unwrap_or(0) as u16, case["word"].as_u64().unwrap_or(0) as u16);
             true
         }
         "bits" => {
